@@ -91,6 +91,11 @@ uint64_t vsim_sign_corrupted(void);
 void vsim_hs_skip(int node, int hs_type, int count);
 uint64_t vsim_hs_skipped(void);
 
+/* byzantine sender: while `node` is current, the plaintext of its nth AEAD seal from now (0-based) is edited before sealing
+   (w bytes at off % (len-w+1): mode 0 = val, 1 = +1, 2 = -1, 3 = xor val), so the peer authenticates and then parses it */
+void vsim_pt_mutate(int node, int nth, int64_t off, int w, int mode, uint32_t val);
+uint64_t vsim_pt_mutated(void);
+
 uint64_t vsim_fnv(const void *p, size_t n);
 
 #ifdef __cplusplus
